@@ -171,6 +171,15 @@ def history(logic, rng, options=(), steps=None, big=False, after_check=None, nam
     check-sat in order)."""
     p = Problem(logic, rng, big=big)
     pool = [p.assertion() for _ in range(14)]
+    if p.nums and not p.dl and rng.random() < 0.5:
+        # definitions of one variable by another, pairwise contradictory: what equality substitution feeds on; asserted in
+        # different levels they must not outlive their level
+        v, w = rng.sample(p.nums, 2)
+        if p.S == "U":
+            rhs = [w, ("uf", "f", "U", [w])] if p.uf else [w]
+        else:
+            rhs = [("app", "+", p.S, [w, ("num", Fraction(k), p.S)]) for k in rng.sample([-2, -1, 1, 2, 3], 3)]
+        pool += [("app", "=", "Bool", [v, t]) for t in rhs] * 2
     lines = [f"(set-option {o})" for o in options] + [p.set_logic()] + p.decls
     stack = [[]]
     checks = []
@@ -201,6 +210,127 @@ def history(logic, rng, options=(), steps=None, big=False, after_check=None, nam
     if after_check:
         lines += after_check(p, rng)
     return p, "\n".join(lines) + "\n", checks
+
+
+def sibling_history(logic, rng, options=(), after_check=None, big=False):
+    """levels that are pushed, filled and popped one after the other at the same depth (some never checked, some with an
+    assertion after their last check), each sibling asserting a definition that contradicts its predecessor's: nothing learnt in
+    one sibling (substitutions, units, names) may survive into the next.  Returns like `history`."""
+    p = Problem(logic, rng, big=big)
+    lines = [f"(set-option {o})" for o in options] + [p.set_logic()] + p.decls
+    stack, checks = [[]], []
+    def add(a):
+        lines.append(f"(assert {smt(a)})"); stack[-1].append(a)
+    def check():
+        lines.append("(check-sat)")
+        checks.append([x for fr in stack for x in fr])
+        if after_check:
+            lines.extend(after_check(p, rng))
+    if p.nums and not p.dl:
+        v, w = rng.sample(p.nums, 2)
+        if p.S == "U":
+            defs = [("app", "=", "Bool", [v, t]) for t in ([w, ("uf", "f", "U", [w]), ("uf", "f", "U", [("uf", "f", "U", [w])])] if p.uf else [w])]
+            defs += [("app", "not", "Bool", [("app", "=", "Bool", [v, w])])]
+        else:
+            defs = [("app", "=", "Bool", [v, ("app", "+", p.S, [w, ("num", Fraction(k), p.S)])]) for k in rng.sample([-2, -1, 1, 2, 3], 4)]
+    else:
+        b, c = rng.sample(p.bools, 2)
+        defs = [("app", "=", "Bool", [b, c]), ("app", "=", "Bool", [b, ("app", "not", "Bool", [c])]), b, ("app", "not", "Bool", [b])]
+    for _ in range(rng.randint(0, 2)):
+        add(p.fla(1))
+    if rng.random() < 0.5:
+        check()
+    for k in range(rng.randint(2, 5)):
+        lines.append("(push 1)"); stack.append([])
+        style = rng.random()
+        if style < 0.25:                       # a level that is never checked
+            add(p.fla(1) if rng.random() < 0.5 else rng.choice(defs))
+        else:
+            add(rng.choice(defs))
+            if rng.random() < 0.3:
+                add(p.fla(1))
+            check()
+            if style < 0.5:                    # one more assertion after the last check of the level
+                add(p.fla(1) if rng.random() < 0.6 else rng.choice(defs))
+        lines.append("(pop 1)"); stack.pop()
+        if rng.random() < 0.3:
+            check()
+    check()
+    return p, "\n".join(lines) + "\n", checks
+
+
+def dl_conjunction(logic, rng, options=()):
+    """a dense conjunction of difference constraints (one atom per assertion, so the order of assertion is the order in which the
+    literals reach the theory solver): several paths between the same vertices, cycles of weight around zero.
+    Returns (problem, assertion terms, script text) like `single_query`."""
+    n = rng.randint(4, 7)
+    p = Problem(logic, rng, nbool=1, nnum=n)
+    asserts = []
+    m = rng.randint(n + 1, 3 * n)
+    for _ in range(m):
+        a, b = rng.sample(p.nums, 2)
+        k = rng.randint(-6, 6)
+        op = rng.choice(["<=", "<=", "<=", "<", ">=", ">"])
+        asserts.append(("app", op, "Bool", [("app", "-", p.S, [a, b]), ("num", Fraction(k), p.S)]))
+    script = "\n".join([f"(set-option {o})" for o in options] + [p.set_logic()] + p.decls + [f"(assert {smt(a)})" for a in asserts] + ["(check-sat)"]) + "\n"
+    return p, asserts, script
+
+
+def dl_paths(logic, rng, options=()):
+    """a consistent graph of difference constraints with non-negative weights and several paths between the same vertices
+    (diamonds, asserted in random order), then one to three literals that contradict, meet or miss by one the shortest-path
+    bound between two vertices: what the difference-logic solvers derive by graph search.  Returns like `single_query`."""
+    n = rng.randint(4, 7)
+    p = Problem(logic, rng, nbool=1, nnum=n)
+    INF = 10 ** 9
+    d = [[0 if i == j else INF for j in range(n)] for i in range(n)]
+    edges = []
+    for _ in range(rng.randint(n, 2 * n + 2)):
+        a, b = rng.sample(range(n), 2)
+        k = rng.randint(0, 6)
+        edges.append((a, b, k))                     # x_a - x_b <= k
+        d[a][b] = min(d[a][b], k)
+    for m in range(n):
+        for i in range(n):
+            for j in range(n):
+                if d[i][m] + d[m][j] < d[i][j]:
+                    d[i][j] = d[i][m] + d[m][j]
+    asserts = [("app", "<=", "Bool", [("app", "-", p.S, [p.nums[a], p.nums[b]]), ("num", Fraction(k), p.S)]) for a, b, k in edges]
+    reach = [(i, j) for i in range(n) for j in range(n) if i != j and d[i][j] < INF]
+    for _ in range(rng.randint(1, 3)):
+        if not reach:
+            break
+        i, j = rng.choice(reach)
+        k = d[i][j] + rng.choice([-1, 0, 0, 1, 2])
+        neg = ("app", "not", "Bool", [("app", "<=", "Bool", [("app", "-", p.S, [p.nums[i], p.nums[j]]), ("num", Fraction(k), p.S)])])
+        asserts.insert(rng.randint(len(asserts) // 2, len(asserts)), neg)
+    script = "\n".join([f"(set-option {o})" for o in options] + [p.set_logic()] + p.decls + [f"(assert {smt(a)})" for a in asserts] + ["(check-sat)"]) + "\n"
+    return p, asserts, script
+
+
+def dl_chain(logic, rng, options=()):
+    """a chain of difference constraints v0 -> v1 -> ... -> vm plus direct edges that are longer than the chain between their
+    ends (never on a shortest path, but met first by a graph search), asserted in random order, and a literal that contradicts
+    or just misses the bound the chain implies between two of its vertices.  Returns like `single_query`."""
+    m = rng.randint(3, 6)
+    p = Problem(logic, rng, nbool=1, nnum=m + 1)
+    w = [rng.randint(0, 3) for _ in range(m)]
+    edges = [(j, j + 1, w[j]) for j in range(m)]
+    for _ in range(rng.randint(1, 3)):
+        a = rng.randint(0, m - 2); b = rng.randint(a + 2, m)
+        edges.append((a, b, sum(w[a:b]) + rng.randint(1, 5)))
+    rng.shuffle(edges)
+    a, b = 0, m
+    if rng.random() < 0.5:
+        a = rng.randint(0, m - 2); b = rng.randint(a + 2, m)
+    k = sum(w[a:b]) + rng.choice([-1, 0, 0, 1])
+    perm = list(range(m + 1)); rng.shuffle(perm)
+    def le(u, v, c):
+        return ("app", "<=", "Bool", [("app", "-", p.S, [p.nums[perm[u]], p.nums[perm[v]]]), ("num", Fraction(c), p.S)])
+    asserts = [le(u, v, c) for u, v, c in edges]
+    asserts.insert(rng.randint(len(asserts) // 2, len(asserts)), ("app", "not", "Bool", [le(a, b, k)]))
+    script = "\n".join([f"(set-option {o})" for o in options] + [p.set_logic()] + p.decls + [f"(assert {smt(x)})" for x in asserts] + ["(check-sat)"]) + "\n"
+    return p, asserts, script
 
 
 def model_queries(p, rng):
